@@ -26,7 +26,12 @@ const c12Verifier = "verifier-0123456789-verifier-0123456789-verifier"
 // c12World: deploy "" = RSA signer; "ecdsa" = a P-256 key in the primary slot
 // (tokens are ES256); "rsa+ed25519" = an Ed25519 CA next to the RSA signer.
 func c12World(deploy string) *vfWorld {
-	return vfNewWorld(vfOpts{CertBackends: []string{"password"}, WebUIBackends: []string{"password"}, ECDSAPrimary: deploy == "ecdsa", Ed25519CA: deploy == "rsa+ed25519",
+	var tweak func(st *RuntimeState)
+	if strings.HasPrefix(deploy, "port") {
+		// the service listens on another port: the issuer names host AND port
+		tweak = func(st *RuntimeState) { st.Config.Base.HttpAddress = ":" + strings.TrimPrefix(deploy, "port") }
+	}
+	return vfNewWorld(vfOpts{CertBackends: []string{"password"}, WebUIBackends: []string{"password"}, ECDSAPrimary: deploy == "ecdsa", Ed25519CA: deploy == "rsa+ed25519", Tweak: tweak,
 		OIDCClients: []OpenIDConnectClientConfig{
 			{ClientID: "A", ClientSecret: "secret-A+/=", AllowedRedirectDomains: []string{"example.com"}, AllowClientChosenAudiences: true},
 			{ClientID: "B", ClientSecret: "", AllowedRedirectDomains: []string{"example.com"}},
@@ -116,6 +121,17 @@ type c12Ctx struct {
 	codes map[c12Auth]string
 	t0    time.Time
 	arts  map[string]string
+}
+
+// c12ExpectedIssuer: https://<host identity>, followed by the listening address
+// unless that is the default https port (written from the documentation of
+// base.http_address, not by calling the server's own helper).
+func c12ExpectedIssuer(w *vfWorld) string {
+	iss := "https://" + w.state.HostIdentity
+	if a := w.state.Config.Base.HttpAddress; a != ":443" {
+		iss += a
+	}
+	return iss
 }
 
 func c12Setup(deploy string) *c12Ctx {
@@ -343,8 +359,8 @@ func (x *c12Ctx) run(p c12Point) (violated bool, key, what, class string) {
 		wantNonce = "nonce-abcdef"
 	}
 	switch {
-	case idc.Iss != x.w.issuer():
-		return true, "C12|id-token-issuer|idpOpenIDCTokenHandler", idc.Iss, ""
+	case idc.Iss != x.w.issuer() || idc.Iss != c12ExpectedIssuer(x.w):
+		return true, "C12|id-token-issuer|idpOpenIDCTokenHandler", fmt.Sprintf("iss=%q, this server is %q", idc.Iss, c12ExpectedIssuer(x.w)), ""
 	case !audOK:
 		return true, "C12|id-token-audience|idpOpenIDCTokenHandler", fmt.Sprintf("aud=%v presenter=%s", idc.Aud, presenter), ""
 	case idc.Sub != a.User:
@@ -447,14 +463,14 @@ func init() {
 	vfRegister(&vfeng.Check{
 		ID:    "C12",
 		Level: "model_checking",
-		Rule:  "for three signer deployments (RSA; a P-256 key in the primary slot; RSA with an Ed25519 CA) - the full product on RSA, the canonical requests and a stride on the others - exhaustive product on the real authorization, token and userinfo handlers: authorization (client A with secret / B secret-less, user incl. two names in the non-canonical form a federated login leaves in the session, challenge none/S256/no-method/plain/unknown/empty, nonce none/short/ok, audience none/allowed/foreign) x token request (presenter A/B/C/unknown/empty, secret right/wrong/absent/other client's/URL-escaped/whitespace-only/right+trailing blank/one character short/case-folded, verifier right/wrong/absent/challenge itself, redirect same/other-allowed/foreign/empty, code fresh/299s/300s/301s/bit-flipped/foreign key/session cookie/access token/ID token, credentials in header/form/both disagreeing, POST/GET); oracle: released => mayRelease(model); canonical flows must succeed; released ID token verified against the keys served by the JWKS route; userinfo returns the same user; an ID token, an authorization code or a session cookie presented to userinfo (header and form) yields no user data whatever the status",
+		Rule:  "for three signer deployments (RSA; a P-256 key in the primary slot; RSA with an Ed25519 CA) and three listening ports other than 443 (the issuer then names host and port) - the full product on RSA, the canonical requests and a stride on the others - exhaustive product on the real authorization, token and userinfo handlers: authorization (client A with secret / B secret-less, user incl. two names in the non-canonical form a federated login leaves in the session, challenge none/S256/no-method/plain/unknown/empty, nonce none/short/ok, audience none/allowed/foreign) x token request (presenter A/B/C/unknown/empty, secret right/wrong/absent/other client's/URL-escaped/whitespace-only/right+trailing blank/one character short/case-folded, verifier right/wrong/absent/challenge itself, redirect same/other-allowed/foreign/empty, code fresh/299s/300s/301s/bit-flipped/foreign key/session cookie/access token/ID token, credentials in header/form/both disagreeing, POST/GET); oracle: released => mayRelease(model); canonical flows must succeed; released ID token verified against the keys served by the JWKS route; userinfo returns the same user; an ID token, an authorization code or a session cookie presented to userinfo (header and form) yields no user data whatever the status",
 		Assumptions: []string{"a code presented exactly 300 s after issue is a boundary (not judged)", "a URL-escaped secret in the form (where no decoding is specified) is not judged"},
 		Shards: func(tier string) int { return 16 },
 		Run: func(c *vfeng.Ctx) {
 			auths := c12Auths()
 			toks := c12Toks(c.Thorough())
 			i := 0
-			for _, deploy := range []string{"", "ecdsa", "rsa+ed25519"} {
+			for _, deploy := range []string{"", "ecdsa", "rsa+ed25519", "port8443", "port1443", "port4430"} {
 				x := c12Setup(deploy)
 				for _, a := range auths {
 					// authorizations that cannot yield a code are evaluated once
